@@ -109,6 +109,14 @@ Theorem C10_total_validate_padding : forall d, forallb validc d = true -> hpanic
 Proof. exact validate_padding_no_panic. Qed.
 Theorem C10_total_segwit_new : forall s, hpanic (segwit_new_p s) = false.
 Proof. exact segwit_new_no_panic. Qed.
+(* and SegwitHrpstring::new written with its indexing, subtraction, expect and unreachable! IS Bech32.segwit_decode under the blech32
+   configuration — the function C06 / C17 are about *)
+Theorem C10_segwit_new_is_model : forall s,
+  match segwit_new_p s with
+  | HOk (h, ver, d) => segwit_decode cfg_blech s = Bech32.Ok (ver, data_bytes d)
+  | HErr e => segwit_decode cfg_blech s = Bech32.Err e
+  | HPanic _ => False end.
+Proof. exact segwit_new_p_spec. Qed.
 (* new_bech32: the full statement is false (F1); it panics exactly on the known class *)
 Theorem C10_total_segwit_new_bech32 : forall s, known_F1 s = false -> hpanic (segwit_new_bech32_p s) = false.
 Proof. intros s K. now rewrite segwit_new_bech32_panic_iff. Qed.
@@ -222,6 +230,8 @@ Check (C10_total_from_commitment : forall pt_ok sl w, known_F18 sl = false -> fr
 Print Assumptions C10_alloc_bound_tx.
 Print Assumptions C10_alloc_bound_block.
 Print Assumptions C10_total_segwit_new.
+Print Assumptions C10_segwit_new_is_model.
+Print Assumptions C10_control_block_is_model.
 Print Assumptions C10_total_segwit_new_bech32.
 Print Assumptions C10_total_control_block.
 Print Assumptions C10_total_merge_xpub.
